@@ -457,7 +457,7 @@ class Check(DiffCheck):
                     t[1] = self.flagstr; t[3] = self.shapes.get(t[2], t[3])       # corpus cases follow the tree's mode and layout
                     cs.append(' '.join(t))
         types = sorted(self.shapes, key=lambda s: int(s[1:]))
-        per = globals().get('PER_OVERRIDE') or (60 if tier == 'quick' else 1200)
+        per = globals().get('PER_OVERRIDE') or (40 if tier == 'quick' else 1000)
         self.meta = {}
         for ty in types:
             size, checked, fs = parse_shape(self.shapes[ty])
@@ -497,6 +497,13 @@ class Check(DiffCheck):
                         hostile.append(flat[k:] if rng.random() < 0.5 else flat[:n - k])
                 for _ in range(3):
                     b = bytearray(flat); i = rng.randrange(n); b[i] ^= 1 << rng.randrange(8); hostile.append(bytes(b))
+                if checked:                                     # altered copies of a valid checked stream: must be rejected
+                    for _ in range(4):
+                        b = bytearray(flat)
+                        i = rng.randrange(n - size) if (n > size and rng.random() < 0.7) else rng.randrange(n)
+                        b[i] ^= 1 << rng.randrange(8)
+                        rf, regions, iov = self.fragment(rng, bytes(b))
+                        cs.append(self.mk_D(ty, rf, regions, iov, '~x'))
                 if it % 5 == 0:
                     hostile.append(bytes(rng.randrange(256) for _ in range(rng.randrange(0, size + 40))))
                     hostile.append(bytes(rng.choice([0, 0, 0, 1, 8, 255]) for _ in range(rng.randrange(size, size + 60))))
@@ -555,14 +562,27 @@ class Check(DiffCheck):
         if d['kind'] == 'S': return d['ty'] + ':S'
         ok = self._ref(d) is not None
         return '%s:D:%s:%s%s' % (d['ty'], 'valid' if ok else 'reject', '1el' if len(d['iov']) <= 1 else ('few' if len(d['iov']) < 6 else 'many'),
-                                 ':ops' if d['ops'] != '~' else '')
+                                 ':altered' if d['ops'] == '~x' else (':ops' if d['ops'] != '~' else ''))
 
     def nontrivial(self, case):
         d = self._p(case)
         if d['kind'] == 'S': return len(d['regions']) > 1
-        return len(d['iov']) > 1 or self._ref(d) is None or d['ops'] != '~'
+        return len(d['iov']) > 1 or self._ref(d) is None or d['ops'][0] != '~'
 
     def known_class(self, case):
+        # F23: CheckedMessage accumulates the CRC in m_checksum, which lies inside the hashed body; the final value is
+        # crc32c(body[4:]) and does not depend on the variable-length fields.  Class = an altered valid checked stream whose
+        # alteration lies in front of the body.  Only a LISTED finding suppresses the violation.
+        t = case.split(' ')
+        if t[0] == 'D' and t[7] == '~x':
+            if not hasattr(self, '_listed'):
+                self._listed = {f.get('id') for f in load_known_findings(self.id) if f.get('status') == 'known'}
+            if 'F23' in self._listed:
+                d = self._p(case)
+                size, checked, fs = parse_shape(d['shape'])
+                body = d['flat'][len(d['flat']) - size:]
+                if checked and len(d['flat']) >= size and struct.unpack_from('<I', body, 0)[0] == crc32c(body[4:]):
+                    return 'F23'
         return None
 
     # ------------------------------------------------------------------ the property, evaluated on the implementation's output
@@ -715,6 +735,8 @@ class Check(DiffCheck):
         items = P(kv['walk']).items('\0')
         r = self.cmp_tree(d, mem, items, exp, fs, 'msg')
         if r: return r
+        if d['ops'] == '~x' and checked:
+            return 'an altered copy of a valid checked message was accepted (the checksum does not cover the altered byte)'
         if kv['ops'] != '-':
             return self.oracle_ops(d, kv, fs, items, exp)
         return None
